@@ -315,6 +315,46 @@ func Run(r *fw.Run) {
 		}, func() { r.Merge(l) }
 	})
 	r.Sample(map[string]any{"kind": "match", "globs": "a/*,b", "target": "a/b/a", "result": module.MatchPrefixPatterns("a/*,b", "a/b/a")})
+	// call histories: every ordered pair of related paths / pairs / patterns, back to back in one goroutine
+	{
+		l := fw.NewLocal()
+		relP := []string{"a.com/x", "A.com/x", "a.com/X", "a.com/x/v2", "a.com/x/v1", "gopkg.in/x.v1", "gopkg.in/x.v1-unstable", "gopkg.in/x.v2", "a.com/con", "a.com/con.txt", "a.com/x~1", "a.com/x.~1", "a.com/.x", "a.com/x.", "a.com", "a", "", "a.com//x", "a.com/x/", "-a.com/x", "a.com/é"}
+		relV := []string{"v1.0.0", "v2.0.0", "v2.0.0+incompatible", "v2.0.0+incompatible.1", "v0.0.0-20190101000000-abcdefabcdef", "v1", ""}
+		r.Bounds["call_histories"] = fmt.Sprintf("all ordered pairs of %d related paths, of %d path/version pairs, of 12 glob/target pairs", len(relP), len(relP)*len(relV))
+		for _, a := range relP {
+			for _, b := range relP {
+				l.States++
+				l.Transitions++
+				checkPath(r, l, a)
+				checkPath(r, l, b)
+			}
+		}
+		type pv struct{ p, v string }
+		var pvs []pv
+		for _, p := range relP[:8] {
+			for _, v := range relV {
+				pvs = append(pvs, pv{p, v})
+			}
+		}
+		for _, a := range pvs {
+			for _, b := range pvs {
+				l.States++
+				l.Transitions++
+				checkPair(r, l, a.p, a.v)
+				checkPair(r, l, b.p, b.v)
+			}
+		}
+		gts := [][2]string{{"a/b", "a/b/c"}, {"a/b", "a/bc"}, {"a/*", "a/b/c"}, {"*", "a"}, {"a/b,c", "c/d"}, {"", "a"}, {"a/b/c", "a/b"}, {"A/b", "a/b"}, {"a/[b]", "a/b"}, {"a/\\b", "a/b"}, {"a/b/", "a/b/c"}, {"a/b", "a/b"}}
+		for _, a := range gts {
+			for _, b := range gts {
+				l.States++
+				l.Transitions++
+				checkMatch(r, l, a[0], a[1])
+				checkMatch(r, l, b[0], b[1])
+			}
+		}
+		r.Merge(l)
+	}
 	// depth: globs and targets of up to 14 path elements (element counts on both sides of every small
 	// fixed-size buffer one might use), plain and with a wildcard element, exact, shorter and longer
 	{
